@@ -343,6 +343,35 @@ func generate(cfg *hx.Config, emit func(string, []string)) {
 		emit("body", []string{kind, hx.Hex(content(r, n)), hx.HexS(ctypes[r.Intn(len(ctypes))]), strconv.Itoa(st0), hdrTok(h, has)})
 	}
 
+	// 2b. the same resolution code exists twice (body and static each carry a
+	//     resolveRange): every header of the exhaustive list and a cross product
+	//     content size x range form runs against BOTH modifiers.
+	sizedFiles := []struct {
+		name string
+		size int
+	}{{"/empty.bin", 0}, {"/one.bin", 1}, {"/two.bin", 2}, {"/three.bin", 3}, {"/a.txt", 10},
+		{"/p255.bin", 255}, {"/p256.bin", 256}, {"/k4.bin", 4096}, {"/big.bin", 65536}}
+	for _, sf := range sizedFiles[:4] {
+		for _, w := range words {
+			emit("exhs", []string{"STATIC", "WIRE", hx.HexS(sf.name), "200", hx.HexS("bytes=" + w), "E-"})
+		}
+		cfg.CountN(fmt.Sprintf("static-exhaustive-size=%d", sf.size), len(words))
+	}
+	for _, sf := range sizedFiles {
+		fs := forms(sf.size, sf.size > 300)
+		var c []byte
+		if sf.name == "/a.txt" {
+			c = []byte("0123456789")
+		} else {
+			c = treeFiles[sf.name[1:]]
+		}
+		for _, h := range fs {
+			emit("xb", []string{"BODY", hx.Hex(c), hx.HexS("text/plain"), "200", hx.HexS(h)})
+			emit("xs", []string{"STATIC", "WIRE", hx.HexS(sf.name), "200", hx.HexS(h), "E-"})
+		}
+		cfg.CountN(fmt.Sprintf("cross-size=%d-forms(each on body and static)", sf.size), len(fs))
+	}
+
 	// 3. static.Modifier: hostile and detouring targets, with and without Range
 	fileSize := map[string]int{"/a.txt": 10, "/sub/b.html": 300, "/big.bin": 65536, "/empty.bin": 0, "/one.bin": 1, "/k4.bin": 4096}
 	for k := 0; k < 900*mul; k++ {
@@ -397,4 +426,56 @@ func bucket(n int) int {
 		}
 	}
 	return 1 << 20
+}
+
+// forms lists Range headers of every form, placed at the boundaries of a
+// content of n bytes: first-last, first-, -n, multiple, malformed.
+func forms(n int, reduced bool) []string {
+	seen := map[int]bool{}
+	var v []int
+	for _, x := range []int{0, 1, 2, n - 2, n - 1, n, n + 1, n + 2, 2*n + 1} {
+		if x >= 0 && !seen[x] {
+			seen[x] = true
+			v = append(v, x)
+		}
+	}
+	if reduced {
+		v = []int{0, 1, n - 1, n, n + 1}
+	}
+	var singles []string
+	for _, a := range v {
+		for _, b := range v {
+			singles = append(singles, fmt.Sprintf("%d-%d", a, b))
+		}
+		singles = append(singles, fmt.Sprintf("%d-", a), fmt.Sprintf("-%d", a))
+	}
+	singles = append(singles, "-9223372036854775807", "-9223372036854775808", "0-9223372036854775807",
+		"0-9223372036854775808", "9223372036854775807-", "-000", "-01", "+0-", "-+1", " 0 - 0 ", "0-\t")
+	bad := []string{"", "-", "--", "a-b", "0-0-0", "0", "-a", "a-", "0--1", "-0x1", "0x0-", " ", "-1e0", "\u00a0-1\u00a0", "-\u0661"}
+	var out []string
+	for _, s := range singles {
+		out = append(out, "bytes="+s)
+	}
+	for _, s := range bad {
+		out = append(out, "bytes="+s)
+	}
+	// multiple: representative singles pairwise, and each malformed next to a good one
+	rep := []string{"0-0", fmt.Sprintf("0-%d", n), fmt.Sprintf("%d-", n-1), fmt.Sprintf("%d-", n), "-1", "-4", "-0",
+		fmt.Sprintf("-%d", n+1), fmt.Sprintf("%d-%d", n-1, n+5), fmt.Sprintf("%d-%d", n, n), "1-0"}
+	if n == 0 {
+		rep[2] = "0-"
+	}
+	if reduced {
+		rep = rep[:8]
+	}
+	for _, a := range rep {
+		for _, b := range rep {
+			out = append(out, "bytes="+a+","+b)
+		}
+	}
+	for _, b := range bad {
+		out = append(out, "bytes=0-0,"+b, "bytes="+b+", -1")
+	}
+	out = append(out, "bytes=-4,-2", "bytes=-1,-1,-1", "BYTES=-1", "-1", "bytes=0-,-1,0-0")
+	return out
 }
